@@ -17,7 +17,15 @@ SWC export / import model for C07 (DESIGN §5 "C07").  Core Lean only, total, co
   the first `# Meta:` header line carries the JSON properties, `#` lines and blank lines between data rows
   are skipped, at least 7 columns) and `readBack` mirrors `SwcReader.read_dataframe` (soma = first row whose
   label equals `soma_label`, connectors from `connector_labels`).
-* `matchFmt` models `BaseReader.parse_filename` for literal-and-`{field[,field][:type]}` patterns.
+* `matchFmt` models `BaseReader.parse_filename` for literal-and-`{field[,field][:type]}` patterns; `matchSegs` / `searchSegs`
+  are proved sound and complete for decompositions of the file name along the pattern (`Proofs/SwcFmtLemmas.lean`), and
+  `fmtConsistentB` is the checker the driver evaluates on navis' own `parse_filename` values.
+* AS WRITTEN: `labelsAsWritten` (the sequential `swc.loc[sel, "label"] = code` assignments over the translator's rule list),
+  `nodeDepthsW` (`_node_depths`: memo dict, walk, assignment along the reversed path), `sortByDepthW`, `makeSwcTableW`; proved
+  equal to `autoLabel` / `depth - 1` / `sortByDepth` / `makeSwcTable` in `Proofs/SwcDepthLemmas.lean`.
+* `Header` / `writeH` / `noRows`: the `header=` option on the token level (generated header or the user's lines, verbatim);
+  the character level of the same (newline termination, cutting the text into lines) is `Model/SwcText.lean`.
+* `terminals`: which parser the `read_*` source methods of `BaseReader` end in (over the translator's call table).
 -/
 namespace Navis.Swc
 open Navis.Forest
@@ -91,6 +99,20 @@ def autoLabel (sk : Skel) (exportConn : Bool) (n : SNode) : Int :=
     if n.id ∈ sk.post then lblPost else if n.id ∈ sk.pre then lblPre else l1
   else l1
 
+/-- Which rows a rule `swc.loc[<selector>, "label"] = code` selects (selectors as the translator names them). -/
+def selects (sk : Skel) (n : SNode) (sel : String) : Bool :=
+  if sel = "type:branch" then n.type = .branch
+  else if sel = "type:end" then n.type = .end_
+  else if sel = "isin:soma" then n.id ∈ sk.soma
+  else if sel = "isin:pre_ids" then n.id ∈ sk.pre
+  else if sel = "isin:post_ids" then n.id ∈ sk.post
+  else false
+
+/-- `labels=True` as written: `swc["label"] = 0`, then the assignments `swc.loc[sel, "label"] = code` one after the other in
+source order (a later rule overwrites an earlier one), the gated ones only with `export_connectors`. -/
+def labelsAsWritten (rules : List (String × Int × Bool)) (sk : Skel) (exportConn : Bool) (n : SNode) : Int :=
+  rules.foldl (fun l r => if (!r.2.2 || exportConn) && selects sk n r.1 then r.2.1 else l) lblUndefined
+
 /-- The `label` column before sorting (`none` = NaN). -/
 def labelOf (op : Opts) (sk : Skel) (n : SNode) : Option Int :=
   match op.labels with
@@ -125,6 +147,53 @@ def depth (t : List SNode) (i : Int) : Nat := (rootPath (forest t) i).length
 def sortByDepth (t : List SNode) : List SNode :=
   (isortBy (fun p : Int × SNode => p.1) (t.map fun n => (((depth t n.id : Nat) : Int), n))).map (·.2)
 
+/-! #### `_node_depths` as written
+
+```
+parents = dict(zip(node_ids, parent_ids)); depths = {}
+for node in node_ids:
+    path = []; on_path = set()
+    while node in parents and node not in depths and node not in on_path:
+        path.append(node); on_path.add(node); node = parents[node]
+    d = depths.get(node, -1)
+    for n in reversed(path): d += 1; depths[n] = d
+return [depths[n] for n in node_ids]
+```
+The memo `depths` is an association list (newest first); the walk carries `reversed(path)`.  `Props.C07.node_depths_as_written`
+proves that on a well-formed forest the result is `depth - 1` for every row, so the sort key of `sortByDepth` is the one navis uses. -/
+
+/-- `parents[node]` (`none` = `node not in parents`), for unique ids. -/
+def parentOf? (t : List SNode) (i : Int) : Option Int := (t.find? (fun n => n.id == i)).map (·.parent)
+
+def memoGet (m : List (Int × Int)) (i : Int) : Option Int := (m.find? (fun kv => kv.1 == i)).map (·.2)
+
+/-- The `while` loop: returns `(reversed(path), node)` when it stops.  `fuel` = `|t| + 1` is never exhausted (the nodes on the
+path are distinct rows of the table). -/
+def walkUp (t : List SNode) (m : List (Int × Int)) : Nat → Int → List Int → List Int × Int
+  | 0, node, path => (path, node)
+  | f + 1, node, path =>
+    match parentOf? t node with
+    | none => (path, node)
+    | some p => if (memoGet m node).isSome || path.contains node then (path, node) else walkUp t m f p (node :: path)
+
+/-- `for n in reversed(path): d += 1; depths[n] = d` -/
+def assignDepths (m : List (Int × Int)) (d : Int) : List Int → List (Int × Int)
+  | [] => m
+  | n :: rest => assignDepths ((n, d + 1) :: m) (d + 1) rest
+
+/-- One iteration of the outer `for node in node_ids` loop. -/
+def depthsStep (t : List SNode) (m : List (Int × Int)) (node : Int) : List (Int × Int) :=
+  assignDepths m ((memoGet m (walkUp t m (t.length + 1) node []).2).getD (-1)) (walkUp t m (t.length + 1) node []).1
+
+def depthsMemo (t : List SNode) : List (Int × Int) := (nodeIds t).foldl (depthsStep t) []
+
+/-- `_node_depths(swc.node_id.values, swc.parent_id.values)` -/
+def nodeDepthsW (t : List SNode) : List Int := (nodeIds t).map fun i => (memoGet (depthsMemo t) i).getD 0
+
+/-- The ordering as written: `swc["_depth"] = _node_depths(…)`, then the stable sort on that column. -/
+def sortByDepthW (t : List SNode) : List SNode :=
+  (isortBy (fun p : Int × SNode => p.1) ((nodeDepthsW t).zip t)).map (·.2)
+
 /-- HISTORICAL: `o` is an admissible result of `sort_values("parent_id")` on `t` (any tie order). -/
 def IsParentSort (t o : List SNode) : Prop :=
   o.Perm t ∧ o.Pairwise (fun a b => a.parent ≤ b.parent)
@@ -156,6 +225,18 @@ def finish (lab : SNode → Option Int) (o : List SNode) : List SwcRow := o.map 
 
 /-- `make_swc_table(x, labels, export_connectors)`. -/
 def makeSwcTable (op : Opts) (sk : Skel) : List SwcRow := finish (labelOf op sk) (sortByDepth sk.nodes)
+
+/-- The `label` column as written (`labels=True`: the sequential assignments of the source in the translator's order). -/
+def labelOfW (op : Opts) (sk : Skel) (n : SNode) : Option Int :=
+  match op.labels with
+  | .auto => some (labelsAsWritten Gen.Swc.labelRules sk op.exportConn n)
+  | .zero => some 0
+  | .column => some n.custom
+  | .byIndex m => (m.find? (fun kv => kv.1 == n.idx)).map (·.2)
+
+/-- `make_swc_table` with the label assignments and the depth computation as written (`Props.C07.table_as_written`
+proves it equal to `makeSwcTable` on well-formed forests). -/
+def makeSwcTableW (op : Opts) (sk : Skel) : List SwcRow := finish (labelOfW op sk) (sortByDepthW sk.nodes)
 
 /-- HISTORICAL: the table with the ordering used before the fix (`sort_values("parent_id")`). -/
 def makeSwcTableHist (op : Opts) (sk : Skel) : List SwcRow := finish (labelOf op sk) (sortByParent sk.nodes)
@@ -326,6 +407,26 @@ def writeWith (wm : WriteMeta) (op : Opts) (sk : Skel) (o : List SNode) : List L
 
 def write (wm : WriteMeta) (op : Opts) (sk : Skel) : List Line := writeWith wm op sk (sortByDepth sk.nodes)
 
+/-! ### the `header=` option -/
+
+/-- `header=None` (generated header, `write_meta` applies) or a user supplied string, given by its physical lines: it
+is written verbatim (navis adds no `#`, only a final line break) and `write_meta` is ignored. -/
+inductive Header where
+  | generated (wm : WriteMeta)
+  | custom (hl : List Line)
+
+def headerFor (hd : Header) (op : Opts) (sk : Skel) : List Line :=
+  match hd with
+  | .generated wm => headerLines wm op sk
+  | .custom hl => hl
+
+/-- No physical line of a header is a data row (every line is a `#` line or blank). -/
+def noRows (hl : List Line) : Bool := hl.all fun l => (rowLine? l).isNone
+
+/-- `_write_swc` with either kind of header, for an arbitrary order `o` of the node table. -/
+def writeH (hd : Header) (op : Opts) (sk : Skel) (o : List SNode) : List Line :=
+  headerFor hd op sk ++ (finish (labelOf op sk) o).map renderRow
+
 /-! ### reading back -/
 
 structure ReadCfg where
@@ -360,6 +461,16 @@ def readBack (cfg : ReadCfg) (ls : List Line) : Option ReadSkel := (parseSwc ls)
 
 def metaGet (m : List (String × String)) (k : String) : Option String := (m.find? (fun kv => kv.1 == k)).map (·.2)
 
+/-! ### source kinds (`BaseReader.read_any*`): which parser every source ends in -/
+
+/-- The methods without an entry of their own that are reachable from `m` in a call table (`fuel` bounds the depth). -/
+def terminals (tbl : List (String × List String)) : Nat → String → List String
+  | 0, m => [m]
+  | f + 1, m =>
+    match tbl.lookup m with
+    | none => [m]
+    | some cs => cs.flatMap (terminals tbl f)
+
 /-! ### file-name patterns (`BaseReader.parse_filename`) -/
 
 inductive Seg where
@@ -374,32 +485,42 @@ def isPrefix : List Char → List Char → Bool
   | a :: as, b :: bs => a == b && isPrefix as bs
 
 /-- Greedy backtracking match of the segments against the *whole remaining prefix* (a regex without
-anchors matches a prefix; `re.search` then slides the start).  Returns the captured groups. -/
+anchors matches a prefix; `re.search` then slides the start).  Returns the captured groups.  A group is `(.*)`: the
+candidate lengths are tried longest first. -/
 def matchSegs : Nat → List Seg → List Char → Option (List (List Char))
   | 0, _, _ => none
   | _ + 1, [], _ => some []
   | f + 1, .lit s :: rest, cs => if isPrefix s cs then matchSegs f rest (cs.drop s.length) else none
   | f + 1, .grp _ :: rest, cs =>
-    -- `(.*)`: longest first
-    let rec tryLen (fuel : Nat) (k : Nat) : Option (List (List Char)) :=
-      match fuel with
-      | 0 => none
-      | fuel + 1 =>
-        match matchSegs f rest (cs.drop k) with
-        | some gs => some (cs.take k :: gs)
-        | none => if k = 0 then none else tryLen fuel (k - 1)
-    tryLen (cs.length + 1) cs.length
+    (List.range (cs.length + 1)).reverse.findSome? fun k => (matchSegs f rest (cs.drop k)).map (cs.take k :: ·)
 
 /-- `re.search`: first start position that matches. -/
 def searchSegs (segs : List Seg) (cs : List Char) : Option (List (List Char)) :=
-  let fuel := segs.length + 2
-  let rec go (n : Nat) (cs : List Char) : Option (List (List Char)) :=
-    match matchSegs fuel segs cs with
-    | some gs => some gs
-    | none => match n, cs with
-      | n + 1, _ :: cs' => go n cs'
-      | _, _ => none
-  go (cs.length + 1) cs
+  (List.range (cs.length + 1)).findSome? fun k => matchSegs (segs.length + 2) segs (cs.drop k)
+
+/-- The text a pattern stands for when its groups are filled with `gs` (one entry per `{…}` group, in order). -/
+def instSegs : List Seg → List (List Char) → List Char
+  | [], _ => []
+  | .lit s :: rest, gs => s ++ instSegs rest gs
+  | .grp _ :: rest, g :: gs => g ++ instSegs rest gs
+  | .grp _ :: rest, [] => instSegs rest []
+
+def groupCount (segs : List Seg) : Nat := (segs.filter fun s => match s with | .grp _ => true | _ => false).length
+
+/-- The pattern with every *named* group replaced by the literal text `val` gives for (one of) its names; anonymous groups
+and names without a value stay wildcards. -/
+def fixSegs (val : String → Option (List Char)) : List Seg → List Seg
+  | [] => []
+  | .lit s :: rest => .lit s :: fixSegs val rest
+  | .grp fs :: rest =>
+    (match fs.findSome? (fun f => val f.1) with
+     | some v => .lit v
+     | none => .grp fs) :: fixSegs val rest
+
+/-- **Checker** evaluated on navis' own `parse_filename` output: the file name contains the pattern with the named
+placeholders replaced by the values navis extracted (`Props.C07.fmt_checker_sound` / `_complete`). -/
+def fmtConsistentB (segs : List Seg) (val : String → Option (List Char)) (filename : List Char) : Bool :=
+  (searchSegs (fixSegs val segs) filename).isSome
 
 /-- Result of `parse_filename`: properties in assignment order (`file` first), values as text plus the
 requested conversion; `none` = no match (`ValueError`). -/
